@@ -44,6 +44,12 @@ def model_check(ctx):
         for cov in r.tagged("COVER"):
             seen.update(cov)
     # (the panicking shift branch exists only in the unrepaired code)
+    # integer -> float on top of encode: top CB - 1 bits with a sticky bit, every integer from the container width to beyond overflow
+    for name, style in (("mini-int32", '"f32"'), ("mini-int64", '"f64"')):
+        c = dict(base)
+        c.update(dict(mini, Style=style))
+        cfg = write_mc_cfg(ctx, name, c, ["IntCorrect"], spec="IntSpec")
+        ctx.mc("mc-" + name, SPECDIR, "IntToFloatAlg.tla", cfg, timeout=900)
     missing = [b for b in BRANCHES if b not in seen and not (b == "subpanic" and not is_open(ctx, "F62"))]
     if missing:
         raise fw.ToolError("vacuity: encode branches never reached by the model scope: %s" % missing)
@@ -59,12 +65,12 @@ def model_check(ctx):
         ctx.notes.append("IeeeEncode without the finding classes: TLC reports a counterexample (expected while F60-F62 are open)")
 
 
-def write_mc_cfg(ctx, name, consts, invariants):
+def write_mc_cfg(ctx, name, consts, invariants, spec="Spec"):
     """TLC configuration files have no negative literals: the exponent window goes as (abs, sign) pairs"""
     c = dict(consts)
     lo, hi = c.pop("ELo"), c.pop("EHi")
     c.update({"ELoAbs": abs(lo), "ELoNegative": tla_bool(lo < 0), "EHiAbs": abs(hi), "EHiNegative": tla_bool(hi < 0)})
-    lines = ["SPECIFICATION Spec"] + ["INVARIANT " + i for i in invariants] + ["CONSTANTS"]
+    lines = ["SPECIFICATION " + spec] + ["INVARIANT " + i for i in invariants] + ["CONSTANTS"]
     lines += ["  %s = %s" % (k, v) for k, v in c.items()]
     lines.append("CHECK_DEADLOCK FALSE")
     p = ctx.path("MC_IeeeEncode_%s.cfg" % name)
